@@ -12,7 +12,7 @@ import numpy as np
 PROP = "C20"
 LEVEL = "exploration"
 VARIANTS = ("omp",)
-CASE_TIMEOUT = 400
+CASE_TIMEOUT = 1200
 RULE = ("kind eos: 3 EOS x random parameter sets (B0 5..400 GPa, B0' 2..8, V0 10..500 A^3): E(V0)=E0, E'(V0)=0, V0 E''(V0)=B0, -(V/B) dB/dV=B0'; "
         "kind qha: 3 EOS x parameter sets x volume grids (5..15 points, +-3..10 %) x pressures {0, +-5, 30 GPa} x electronic energies of shape (V) or (T,V) x t_max choices: "
         "V0(T), Gibbs energy, B0(T), thermal expansion and numerical C_P vs the documented finite differences of the known functions; BulkModulus class; "
